@@ -9,11 +9,17 @@ CONSTANTS GenMax,      \* bound of the length of an exported behaviour
 VARIABLES hist, pcs, prev
 \* In the model a finished or abandoned message leaves the sink as it was before (IdleClean), so the model checker
 \* would look at a following message once only.  The code has to show that too: with Chain the class of the previous
-\* message and how it ended stay in the view, every message in every cut is replayed behind every such class.
-PrevClass(m) == IF Len(m) >= 2 /\ IsRich(m) THEN "rich" ELSE Route(cfg, m)
+\* message (printed / filtered / rich text, value rows, raw value rows, passed on) and how it ended stay in the view,
+\* every message in every cut is replayed behind every such class.
+PrevClass(m) == IF Route(cfg, m) = "log" /\ Len(m) >= 2 /\ OutFlags(MType(m), lvl0) = 0 THEN "filtered"
+                ELSE IF Len(m) >= 2 /\ IsRich(m) THEN "rich"
+                ELSE IF Route(cfg, m) = "values" /\ m[1] = RawCmd THEN "rawvalues"
+                ELSE Route(cfg, m)
 GenInit == Init /\ hist = <<obs>> /\ pcs = <<>> /\ prev = <<>>
 GenNext ==
   /\ Next
+  \* a message behind a predecessor is followed to its end in every cut, not abandoned again
+  /\ ~(Chain /\ prev # <<>> /\ obs'.a = "abort")
   /\ hist' = Append(hist, obs')
   /\ pcs' = CASE obs'.a = "push" -> Append(pcs, Len(obs'.arg.data))
               [] obs'.a \in {"msg", "end", "abort", "drop", "vlog"} -> <<>>
